@@ -271,6 +271,48 @@ def fn_falsy(prog):
     return (R.n_events >= 2 and R.n_effects >= 1, sig, [(k + ":falsy-outer-hook", m, d) for k, m, d in R.viols], 1)
 
 
+def fn_default_hook(prog):
+    """the block is entered while sys.displayhook is the interpreter's default hook
+    (sys.__displayhook__): on exit the tag is handed to it, i.e. printed and bound to builtins._ ."""
+    import builtins
+    import contextlib
+    import io
+    R = Run()
+    saved = sys.displayhook
+    had_underscore = hasattr(builtins, "_")
+    old_underscore = getattr(builtins, "_", None)
+    sys.displayhook = sys.__displayhook__
+    buf = io.StringIO()
+    viols = []
+    outer = None
+    try:
+        with contextlib.redirect_stdout(buf):
+            try:
+                run_body(prog, [], R)
+            except Viol as v:
+                viols.append(v.v)
+            except Exception as e:
+                if type(e).__name__ != R.expected_fault:
+                    viols.append(("wrong-exception", f"{type(e).__name__}: {e} escaped, expected {R.expected_fault}", {}))
+        if sys.displayhook is not sys.__displayhook__:
+            viols.append(("chain-broken:default-hook", "after the program sys.displayhook is not the default hook", {}))
+        top = [t for t in R.tags.values()]
+        if top and not viols:
+            outer = top[0]           # the program is one outer block: its tag is created first
+            printed = buf.getvalue()
+            if getattr(builtins, "_", None) is not outer or printed.count(repr(outer)) != 1:
+                viols.append(("delivery:default-hook", "the outer tag was not handed exactly once to the interpreter's "
+                              "default display hook on exit", {"printed": printed[:200]}))
+    finally:
+        sys.displayhook = saved
+        if had_underscore:
+            builtins._ = old_underscore
+        elif hasattr(builtins, "_"):
+            del builtins._
+    viols += R.viols
+    return (True, None, [(k + ":default-hook" if not k.endswith("default-hook") else k, m, d) for k, m, d in viols], 1)
+
+
 def bodies(atoms, lens):
     """lens[0] = max body length at this level; deeper levels follow."""
     if len(lens) == 1:
@@ -301,6 +343,10 @@ def plan(tier):
     top_ev = Alt(Const(top_atoms), Map(inner, lambda b: ["block", b]), Map(inner, lambda b: ["tryblock", b]))
     out.append(dict(kind="space", name="top-level-sequences", fn=fn, space=Seq(top_ev, 0, 3),
                     note="sequences of <= 3 top-level events (blocks, try-blocks, displays, sequential re-use)"))
+    dh = bodies(ATOMS_RED, [2, 1])
+    out.append(dict(kind="space", name="default-displayhook", fn=fn_default_hook,
+                    space=Map(dh, lambda body: [["block", body]]),
+                    note="one outer block entered under sys.__displayhook__ (output captured): tag printed once and bound to builtins._"))
     out.append(dict(kind="space", name="falsy-outer-hook", fn=fn_falsy, space=Seq(top_ev, 0, 2),
                     note="sequences of <= 2 top-level events with a falsy callable object as the outermost hook"))
     return out
